@@ -156,7 +156,7 @@ WILD_POOL = [1 / 3.0, -1 / 3.0, 3.141592653589793, -2.718281828459045, 0.1, 0.7,
 
 
 def gen_case(rng, cmd, dtypes=arr.DTYPES_Q, max_cells=60, ranks=(1, 2, 3), hostile=False, max_n=5,
-             masks=True, distinct2=None, n=None, wild=False):
+             masks=True, distinct2=None, n=None, wild=False, layouts=True):
     """A JSON case: {"cmd", "inputs": [array specs], "params"}."""
     n = n or n_inputs(rng, cmd, max_n)
     shape = arr.gen_shape(rng, max_cells, ranks)
@@ -168,7 +168,8 @@ def gen_case(rng, cmd, dtypes=arr.DTYPES_Q, max_cells=60, ranks=(1, 2, 3), hosti
             dt = "float32"
         need2 = (cmd in STATS or cmd in ("NormalizeCurve", "CvtToFuzzyCurve")) if distinct2 is None else distinct2
         ins.append(arr.gen_array(rng, shape, dt, fuzzy=fuzzy_in, mask_style=None if masks else "none",
-                                 payload=rng.choice(arr.PAYLOADS), distinct2=need2))
+                                 payload=rng.choice(arr.PAYLOADS), distinct2=need2,
+                                 layout=rng.choice(arr.LAYOUTS) if layouts and rng.random() < 0.12 else None))
     if wild and not fuzzy_in:
         # finite floats off the dyadic lattice (compared with a tolerance scaled by the reference model)
         for s_ in ins:
